@@ -14,6 +14,7 @@ import PC.Drv.OsStop
 import PC.Drv.Race
 import PC.Drv.Daemon
 import PC.Drv.LogFile
+import PC.Drv.WsFollow
 /-! `pcdriver <component>`: reads protocol lines on stdin, prints `model ||| verdict` per line. -/
 open PC.Drv
 
@@ -36,6 +37,7 @@ def main (args : List String) : IO UInt32 := do
   | ["api"] => loop PC.Drv.Api.step stdin stdout (); return 0
   | ["osstop"] => loop PC.Drv.OsStop.step stdin stdout (); return 0
   | ["race"] => loop PC.Drv.Race.step stdin stdout (); return 0
+  | ["wsfollow"] => loop PC.Drv.WsFollow.step stdin stdout {}; return 0
   | ["logfile"] => loop PC.Drv.LogFile.step stdin stdout (); return 0
   | ["daemon"] => loop PC.Drv.Daemon.step stdin stdout ({} : PC.Daemon.D); return 0
   | ["merge"] => loop PC.Drv.Merge.step stdin stdout (); return 0
